@@ -30,6 +30,16 @@ def requests(ctx):
         ign = rng.choice([".", ".x", ".~", ".+"])
         other.append(("make_pair_table", [list(s.replace("+", brk) if rng.random() < 0.7 else s), brk, list(ign)]))
     batches["make_pair_table/parameters"] = other
+    # foreign characters of every kind (format/escape characters, digits, non-ASCII): all rejected alike
+    foreign = []
+    for s in rng.sample(strs, min(len(strs), 1500 if quick else 15000)):
+        k = rng.randrange(len(s) + 1)
+        c = rng.choice(list("{}%[]<>*~0\\'\"$#@!,;:?=_-") + ["\u2192", "\u00e9", "\n", "\t", "{}", "{0}", "%s"])
+        t = list(s[:k]) + list(c) + list(s[k:])
+        foreign.append(("make_pair_table", [t, "+", ["."]]))
+        if "+" in s and len(t) < 9:
+            foreign.append(("rotate_complex_db", [["+" if x == "+" else "d" for x in t], t]))
+    batches["make_pair_table/foreign-characters"] = foreign
     # strand tables
     seqs = []
     for s in gs.all_strings("ab+", 6):
@@ -45,6 +55,16 @@ def requests(ctx):
         stc = [[rng.choice("ACGT+&") for _ in range(rng.randrange(0, 5))] for _ in range(rng.randrange(0, 5))]
         seqs.append(("strand_table_join", [stc, [brk]]))
         seqs.append(("make_strand_table_str", [[rng.choice("ACGT+&") for _ in range(rng.randrange(0, 12))], brk]))
+    # break markers that are not interned one-character strings (non-Latin-1, several characters): equality, not identity
+    for _ in range(300 if quick else 3000):
+        brk = rng.choice(["\u2192", "_", "\u00e9", "\u0416", "\U0001F9EC"])       # one character each: make_strand_table asserts that
+        pool_ = ["a", "b*", "+", brk, brk, "c_1"]
+        sq = [rng.choice(pool_) for _ in range(rng.randrange(0, 10))]
+        seqs.append(("make_strand_table_list", [sq, brk]))
+        st = [[rng.choice(["a", "b*", "+"]) for _ in range(rng.randrange(0, 4))] for _ in range(rng.randrange(0, 5))]
+        seqs.append(("strand_table_to_sequence", [st, brk]))
+        if len(brk) == 1:
+            seqs.append(("make_strand_table_str", [[rng.choice(["A", "C", "+", brk]) for _ in range(rng.randrange(0, 10))], brk]))
     batches["strand_tables"] = seqs
     # the "other operations" clause: the fast rotation on ill-formed structures
     rot = []
@@ -121,6 +141,27 @@ def run(ctx):
                     return disagree_one(rq)
                 s = shrink(s, bad, gs.shrink_string, budget=60)
                 cases.append({"s": s, "brk": brk if len(brk) == 1 else "+"})
+        # strand tables: no strand contains an element equal to the break marker, and joining the strands gives back the
+        # sequence up to empty strands (direct statement on the implementation)
+        stf = []
+        for d in [x for x in diffs if x[1][0] in ("make_strand_table_list", "make_strand_table_str")][:20]:
+            seq, brk = d[1][1]
+            r = run_impl([d[1]], jobs=1)[0]
+            if isinstance(r, Err):
+                continue
+            runs, cur = [], []
+            for x in seq:
+                if x == brk:
+                    runs.append(cur); cur = []
+                else:
+                    cur.append(x)
+            runs.append(cur)
+            want = [x for x in runs if x] if d[1][0] == "make_strand_table_list" else runs
+            if any(brk in strand for strand in r) or [list(x) for x in r] != want:
+                stf.append({"key": {"strand_table": d[1][1]}, "input": {"strand_table": [d[1][0], d[1][1]]},
+                            "what": f"{d[1][0]}({seq!r}, strand_break={brk!r}) = {r!r}: not the sequence cut at every element equal to the break marker",
+                            "snippet": f"from dsdobjects.complex_utils import make_strand_table; make_strand_table({seq!r}, strand_break={brk!r})"})
+        pre = pre + stf
         # then the small-scope enumerator and the random stream against the oracle
         cases += [{"s": s, "brk": "+"} for s in strs] + [{"s": s, "brk": "+"} for s in rnd[:2000]]
         out = run_oracle("c06.py", {"cases": cases})
@@ -139,6 +180,11 @@ def replay(data):
     if not inp:
         print("replay file names a broken proof/correspondence link only:", json.dumps(data.get("broken_links"))[:2000])
         return 1
+    if isinstance(inp, dict) and "strand_table" in inp:
+        op_, (seq, brk) = inp["strand_table"]
+        r = run_impl([(op_, [seq, brk])], jobs=1)[0]
+        print(r)
+        return 1 if (isinstance(r, Err) or any(brk in strand for strand in r)) else 0
     out = run_oracle("c06.py", {"cases": [inp]})
     print(json.dumps(out))
     return 1 if out["failures"] else 0
